@@ -60,6 +60,14 @@ Logged == /\ Ev /\ S \in {"sm.put.logged", "sm.del.logged", "sm.batch.logged"}
           /\ pend = 0 /\ Ea = next - 1 /\ logged = 0
           /\ logged' = Ea
           /\ UNCHANGED <<mode, next, pend, synced, rot, sst, renamed, tbl, cmp>>
+\* an EMPTY batch (Manager.ApplyBatch with no entries): no record, no number - the log answers with the number it would give
+\* next, and the last sequence number the engine reports stays the last one that was given
+EmptyLogged == /\ Ev /\ S = "sm.batch.logged" /\ Eb = 0 /\ pend = 0 /\ logged = 0 /\ (next = 0 \/ Ea = next)
+               /\ logged' = -1
+               /\ UNCHANGED <<mode, next, pend, synced, rot, sst, renamed, tbl, cmp>>
+EmptyApplied == /\ Ev /\ S = "sm.batch.applied" /\ Eb = 0 /\ logged = -1 /\ (next = 0 \/ Ea = next - 1)
+                /\ logged' = 0
+                /\ UNCHANGED <<mode, next, pend, synced, rot, sst, renamed, tbl, cmp>>
 BatchEntry == /\ Ev /\ S = "sm.batch.entry" /\ logged = Ea
               /\ UNCHANGED <<mode, next, pend, synced, logged, rot, sst, renamed, tbl, cmp>>
 Applied == /\ Ev /\ S \in {"sm.put.applied", "sm.del.applied", "sm.batch.applied"} /\ logged = Ea
@@ -112,7 +120,7 @@ Handled == {"h.reset", "h.retire", "h.error",    \* h.error: the harness could n
             "cmp.cycle.end"}
 Other == Ev /\ S \notin Handled /\ UNCHANGED <<mode, next, pend, synced, logged, rot, sst, renamed, tbl, cmp>>
 
-Next == Reset \/ Retired \/ Written \/ BatchRec \/ SyncDone \/ AppendDone \/ Logged \/ BatchEntry \/ Applied \/ Rotation \/ SetNext
+Next == Reset \/ Retired \/ Written \/ BatchRec \/ SyncDone \/ AppendDone \/ Logged \/ EmptyLogged \/ EmptyApplied \/ BatchEntry \/ Applied \/ Rotation \/ SetNext
         \/ SstStep \/ TablePre \/ TableRenamed \/ TablePublished \/ Compaction \/ Other
 Spec == Init /\ [][Next]_vars
 HighWater == IF l > TLCGet(1) THEN TLCSet(1, l) ELSE TRUE
